@@ -21,7 +21,7 @@ EXPECTED_CRATES = {
     "C": ["vibrato-lib"],
 }
 CONFIGS = {
-    "A": {"rustflags": "-Zmir-opt-level=0 -Awarnings", "args": ["--workspace", "--lib", "--bins"]},
+    "A": {"rustflags": "-Zmir-opt-level=0 -Zalways-encode-mir -Awarnings", "args": ["--workspace", "--lib", "--bins"]},
     "B": {"rustflags": "-Zmir-opt-level=0 -Awarnings -C target-feature=+avx2",
           "args": ["-p", "vibrato", "--lib"]},
     "C": {"rustflags": "-Zmir-opt-level=0 -Awarnings",
